@@ -71,6 +71,8 @@ Wraps(o) ==
   \cup {Dotted(<<m, o>>, Sym("z")) : m \in {Str(Cps("q"))}} \cup {Dotted(<<Nil, o, Nil, Sym("y")>>, IntO("3", FALSE))}
   \cup {Vec(<<m, o>>) : m \in Mates} \cup {Arr(<<2, 2>>, <<o, m, m, o>>) : m \in {IntO("0", FALSE), Str(Cps("e"))}}
   \cup {Arr(<<1, 2, 1>>, <<o, m>>) : m \in {Sym("x")}} \cup {Arr(<<2, 0>>, <<>>), Arr(<<>>, <<o>>)}
+  \* arrays whose elements are lists (of one element, of two, dotted) and nil: the nesting of the text is deeper than the rank
+  \cup {Arr(<<2, 2>>, <<List(<<o>>), m, Nil, List(<<m, o>>)>>) : m \in {Sym("x")}} \cup {Arr(<<2, 1>>, <<Dotted(<<o>>, IntO("3", FALSE)), List(<<o>>)>>)}
   \cup (IF Level = 1 THEN {} ELSE {List(<<o, o, o, o, o, o, o, o>>), List(<<List(<<o>>), Vec(<<o>>), Nil>>), Vec(<<>>)})
   \cup (IF Family = "hash" THEN {Hash(<<<<Sym("k"), o>>>>), Hash(<<<<Str(Cps("s t")), o>>, <<IntO("7", FALSE), Sym("v")>>, <<Kw("kw"), List(<<o, o>>)>>>>), Hash(<<>>)} ELSE {})
 StructSeeds == {IntO("7", FALSE), IntO("9223372036854775808", FALSE), Ratio("1", "3", FALSE), Float("double", "0.1"), Float("single", "4"), Str(Cps("a\"b\\c")),
